@@ -58,7 +58,31 @@ struct Call {
   int closed_fds = 0;     // environment: bit i set = the caller's descriptor i (0/1/2) is closed when the call is made
   void (*body)(Life&) = nullptr;  // API_SUB: a fixed program of Subprocess operations
   const char* body_name = "";
+  // round 5 -- environment: signals (handlers installed without SA_RESTART) arrive in the calling process at fixed
+  // virtual times: the first one sig_phase us after the call began, then one every sig_period us (0: only that one)
+  bool sig_mode = false;
+  uint64_t sig_period = 0, sig_phase = 0;
+  // the child ends on its own at about the time the timeout expires: the call may return the child's own results or
+  // end it after the timeout has expired, both are what the statement says
+  bool may_time_out = false;
 };
+
+// "A timeout ends the child": the child must not be still running this long (virtual us) after the timeout expired.
+// HEAD ends it within one poll interval (1 s; after another 5 s + 1 s with SIGKILL when the child ignores SIGTERM) plus
+// the cost of its system calls; the demand is deliberately much weaker than that (the statement names no granularity).
+constexpr uint64_t TIMEOUT_SLACK = 20000000;
+uint64_t max_child_time(const std::vector<Step>& sc) {
+  uint64_t m = 0;
+  for (auto& st : sc) if (st.k == ST_T) m = std::max<uint64_t>(m, (uint64_t)st.arg);
+  return m;
+}
+bool sane_timeout(uint64_t t) { return t && t < (1ull << 40); }
+// cap on the parent's system calls in one call: 6000, plus 8 per signal that can arrive before the call has to be over
+size_t syscall_cap_for(const Call& c) {
+  if (!c.sig_mode || !c.sig_period) return SYSCALL_CAP;
+  uint64_t horizon = (sane_timeout(c.timeout) ? c.timeout : 0) + max_child_time(c.script) + TIMEOUT_SLACK + 2 * c.sig_period;
+  return SYSCALL_CAP + 8 * (size_t)(horizon / c.sig_period + 1);
+}
 
 std::string describe_script(const std::vector<Step>& sc) {
   std::string s;
@@ -70,6 +94,13 @@ std::string describe_script(const std::vector<Step>& sc) {
       while (i + 2 * rep + 1 < sc.size() && sc[i + 2 * rep].k == ST_R && sc[i + 2 * rep + 1].k == ST_W1 && sc[i + 2 * rep].arg == sc[i].arg && sc[i + 2 * rep + 1].arg == sc[i + 1].arg) rep++;
     }
     if (rep >= 3) { s += vf::fmt("{R(%lld) W1(%lld)}x%zu ", (long long)sc[i].arg, (long long)sc[i + 1].arg, rep); i += 2 * rep; continue; }
+    // compress "T(t) W1(n) T(t+q) W1(n) ..." (a child that writes n bytes every q us)
+    if (i + 3 < sc.size() && sc[i].k == ST_T && sc[i + 1].k == ST_W1 && sc[i + 2].k == ST_T) {
+      int64_t q = sc[i + 2].arg - sc[i].arg;
+      size_t reps = 1;
+      while (i + 2 * reps + 1 < sc.size() && sc[i + 2 * reps].k == ST_T && sc[i + 2 * reps + 1].k == ST_W1 && sc[i + 2 * reps].arg == sc[i].arg + (int64_t)reps * q && sc[i + 2 * reps + 1].arg == sc[i + 1].arg) reps++;
+      if (reps >= 3) { s += vf::fmt("{T(next multiple of %lld us) W1(%lld)}x%zu (T(%lld us)..T(%lld us)) ", (long long)q, (long long)sc[i + 1].arg, reps, (long long)sc[i].arg, (long long)(sc[i].arg + (int64_t)(reps - 1) * q)); i += 2 * reps; continue; }
+    }
     auto& st = sc[i++];
     switch (st.k) {
       case ST_R: s += vf::fmt("R(%lld) ", (long long)st.arg); break;
@@ -82,6 +113,7 @@ std::string describe_script(const std::vector<Step>& sc) {
       case ST_Z: s += "Z "; break;
       case ST_P: s += "P "; break;
       case ST_I: s += vf::fmt("I(%lld) ", (long long)st.arg); break;
+      case ST_T: s += vf::fmt("T(%lld us) ", (long long)st.arg); break;
     }
   }
   return s;
@@ -102,6 +134,8 @@ std::string describe_call(const Call& c) {
   if (c.variant & V_FORK_FAILS) s += ", fork() fails";
   if (c.ctx) s += std::string(", called ") + kCtxName[c.ctx];
   if (c.closed_fds) s += std::string(", caller's descriptors {") + (c.closed_fds & 1 ? "0 " : "") + (c.closed_fds & 2 ? "1 " : "") + (c.closed_fds & 4 ? "2 " : "") + "} closed";
+  if (c.sig_mode && c.sig_period) s += vf::fmt(", signals in the caller every %llu us, the first %llu us after the call began", (unsigned long long)c.sig_period, (unsigned long long)c.sig_phase);
+  else if (c.sig_mode) s += vf::fmt(", one signal in the caller %llu us after the call began", (unsigned long long)c.sig_phase);
   s += ") child script [ " + describe_script(c.script) + "]";
   return s;
 }
@@ -192,6 +226,9 @@ void life_move_assign(Life& L) {
   L.expect(st == P.term_status && !P.alive, "Subprocess::wait:wrong-status", vf::fmt("wait() = %d, the child's wait status is %d", st, P.term_status));
 }
 
+// vacuity counters of the round-5 dimension (summed per case by the section)
+struct SigStats { uint64_t calls_with_signals = 0, calls_interrupted = 0, eintr_answers = 0, max_eintr_in_one_call = 0, ended_by_timeout = 0, ended_on_their_own = 0; } g_sig_stats;
+
 // ---- one call ---------------------------------------------------------------------------------------------------
 struct AtUnwind {
   std::function<void()> f;
@@ -219,6 +256,12 @@ Outcome run_call(const Call& sc, const std::string& vchild, int ambient_errno) {
   P.fail_fork = (sc.variant & V_FORK_FAILS) != 0;
   P.eintr_rw = sc.api == API_RUN;
   P.timeout_hint = sc.timeout;
+  P.sig_mode = sc.sig_mode;
+  P.sig_period = sc.sig_period;
+  P.sig_phase = sc.sig_phase;
+  P.syscall_cap = syscall_cap_for(sc);
+  // every system call costs 1 us, so the allowance contains the cap on system calls as well
+  if (sane_timeout(sc.timeout) && sc.api != API_SUB) P.overrun_limit = sc.timeout + TIMEOUT_SLACK + 2 * sc.sig_period + P.syscall_cap;
   g_bad_kill = 0;
   __real_gettimeofday(&P.base, nullptr);
   std::string payload = payload_of(sc.payload);
@@ -274,6 +317,14 @@ Outcome run_call(const Call& sc, const std::string& vchild, int ambient_errno) {
   pid_t pid = P.pid;
   size_t steps_done = P.pc;
   P.active = false;
+  if (sc.sig_mode) {
+    g_sig_stats.calls_with_signals++;
+    g_sig_stats.calls_interrupted += P.sig_eintr != 0;
+    g_sig_stats.eintr_answers += P.sig_eintr;
+    g_sig_stats.max_eintr_in_one_call = std::max(g_sig_stats.max_eintr_in_one_call, P.sig_eintr);
+    if (P.killed_by_parent) g_sig_stats.ended_by_timeout++;
+    else if (!P.alive) g_sig_stats.ended_on_their_own++;
+  }
   // ---- oracle ----
   auto finish = [&](const std::string& key, const std::string& why) {
     if (o.fail.empty()) { o.key = key; o.fail = why; }
@@ -297,7 +348,7 @@ Outcome run_call(const Call& sc, const std::string& vchild, int ambient_errno) {
     }
     // every system call of the parent costs 1 virtual us (at most SYSCALL_CAP per call): a timeout that small may
     // expire although the child does not hang; ending the child after the timeout has expired is then legitimate
-    bool tiny_timeout = sc.timeout && sc.timeout <= SYSCALL_CAP;
+    bool tiny_timeout = sc.timeout && (sc.timeout <= SYSCALL_CAP || sc.may_time_out);
     bool comm_timed_out = threw.find("timed out") != std::string::npos;
     bool ended_by_timeout = sc.want_status == -1 || (tiny_timeout && (sc.api == API_RUN ? P.killed_by_parent : sc.api == API_COMM && comm_timed_out && P.vclock >= sc.timeout));
     bool script_done = steps_done >= sc.script.size() || ended_by_timeout;
@@ -362,7 +413,8 @@ Outcome run_call(const Call& sc, const std::string& vchild, int ambient_errno) {
   if (!o.fail.empty() && o.key.find("engine") == std::string::npos) {
     // the environment class of the failing execution is part of the key (a different defect gets a different key)
     if (sc.timeout >= (1ull << 62)) o.key += "+huge-timeout";
-    for (int s : {(int)EI_READ, (int)EI_WRITE, (int)EI_WAITPID, (int)EI_POLL}) if (P.eintr_given[s]) { o.key += std::string("+eintr-") + kEintrName[s]; break; }
+    if (sc.sig_mode) o.key += "+signals";
+    else for (int s : {(int)EI_READ, (int)EI_WRITE, (int)EI_WAITPID, (int)EI_POLL}) if (P.eintr_given[s]) { o.key += std::string("+eintr-") + kEintrName[s]; break; }
     if (sc.closed_fds) o.key += "+low-fds-closed";
     if (sc.ctx) o.fail += std::string(" [called ") + kCtxName[sc.ctx] + "]";
   }
